@@ -149,6 +149,7 @@ def tokStr : Tok → String
   | .bret r => "r" ++ retStr r
   | .commit f => s!"+{f}"
   | .claimed st => s!"C{st}"
+  | .threadBegin => "T["
   | .done lvl c r n => s!"{lvl}{icallStr c}={iresStr r}/{n}"
   | .mret (.next t) self wake _ n => s!"next({t.toNat}):self={selfStr self}:wake={wake.toNat}:n={n}"
   | .mret (.run f) _ _ _ n => s!"run({f}):n={n}"
@@ -168,7 +169,8 @@ def modelStep (s : S) (w : List String) : S × List String :=
   | ["reset"] => (init, ["ok"])
   | [] => (s, [])
   | "cfg" :: d :: ks => match d.toNat?, kinds? ks with
-    | some d, some l => if 1 ≤ d ∧ d ≤ 32 ∧ l.length < NF then (initWith d (l.map (·.1)) (l.map (·.2)), ["ok"]) else (s, ["bad-op"])
+    | some d, some l =>
+      if 1 ≤ d ∧ d ≤ 32 ∧ l.length < NF then (initWith d (l.map (·.1)) (l.map (·.2)), [s!"ok nf={l.length + 1}"]) else (s, ["bad-op"])
     | _, _ => (s, ["bad-op"])
   | w => match item? w with
     | some it => let s' := runItem s it; (s', [render it s'])
@@ -185,8 +187,10 @@ def obs? (t : String) : List Obs :=
   let h := head1 t
   let r := rest1 t
   if t = "N" then [.passBegin]
-  else if t = "L" then [.finalCheck]
-  else if t = "ry" then [.bodyYielded]
+  else if t = "L" then [.looked]
+  else if t = "ry" then [.bodyReturned true]
+  else if t = "rw" ∨ t = "re" ∨ t = "rf" then [.bodyReturned false]
+  else if t = "T[" then [.threadBegin]
   else if h = "d" then (r.toNat?.map fun f => [Obs.dispatched f]).getD []
   else if h = "p" then (r.toNat?.map fun st => [Obs.evProcessed st]).getD []
   else if h = "+" then (r.toNat?.map fun f => [Obs.accepted f]).getD []
@@ -207,8 +211,9 @@ def obs? (t : String) : List Obs :=
       let rv := (res.splitOn "/").head?.getD ""
       match arg.toNat? with
       | some x =>
-        if head1 r = "A" then (if rv = "0" then [.rejected x] else [])
-        else if rv = "1" then [.evSent x true] else if rv = "0" then [.evSent x false] else []
+        (if head1 r = "A" then (if rv = "0" then [Obs.rejected x] else [])
+         else if rv = "1" then [Obs.evSent x true] else if rv = "0" then [Obs.evSent x false] else [])
+        ++ (if h = "2" then [Obs.threadEnd] else [])
       | none => []
     | _ => []
   else []
@@ -218,12 +223,17 @@ def verdictStr : Verdict → String
   | .eventOutOfOrder g e => s!"event-out-of-order(got={g},expected={e})"
   | .eventFromNowhere g => s!"event-from-nowhere(got={g})"
   | .oversleeps => "oversleeps"
+  | .starved f => s!"starved(fibre={f})"
 
 def listStr (l : List Nat) : String := "[" ++ ",".intercalate (l.map toString) ++ "]"
 
 def specStep (a : A) (w : List String) : A × List String :=
   match w with
-  | ["--"] => ({}, [s!"verdict={verdictStr a.verdict} owed={listStr a.owed} mustget={listStr a.mustGet}", "--"])
+  | ["--"] => ({}, [s!"verdict={verdictStr a.verdict} owed={listStr a.owedFids} mustget={listStr a.mustGet}", "--"])
+  | "ok" :: rest =>      -- the reply to `cfg` names the number of fibres
+    match rest.filterMap (fun t => if t.startsWith "nf=" then (t.drop 3).toString.toNat? else none) with
+    | n :: _ => ({ a with nf := n }, [])
+    | [] => (a, [])
   | w => ((w.flatMap obs?).foldl A.step a, [])
 
 def main (args : List String) : IO UInt32 :=
